@@ -905,6 +905,16 @@ func (s *tcpSys) checkState(ts []any) []Mismatch {
 			}
 		}
 	}
+	// an orphan (registered on an allocation that had ended while its dial was in flight) is in no table the server
+	// still has; its peer end stays open until the bind deadline, which the "closed" outputs of that step decide
+	for alias, rec := range wantConns {
+		if _, orphan := rec["orphan"]; orphan {
+			delete(wantConns, alias)
+			if pe := s.peerEnd[alias]; pe != nil && pe.PeerClosed() {
+				ms = append(ms, Mismatch{"tcp.close+", fmt.Sprintf("connection %d (registered after its allocation had ended) was closed before the bind deadline", alias)})
+			}
+		}
+	}
 	seen := map[int]bool{}
 	for c, ca := range s.caddr {
 		ea, _ := alloc[c].(map[string]any)
